@@ -524,6 +524,14 @@ func runWorker(prop, tier string, wi, wn int, res *workerResult) {
 			}
 		})
 	}
+	if prop == "C01" || prop == "C14" {
+		// the object-index family also has to round-trip and be well-formed
+		for _, cfg := range refsForCfgs(tier != "thorough") {
+			if mine() {
+				tablegen.F4(cfg, yield)
+			}
+		}
+	}
 	for ci, cfg := range p.cfgs {
 		if p.f1 {
 			stride := 1
@@ -531,9 +539,14 @@ func runWorker(prop, tier string, wi, wn int, res *workerResult) {
 				stride = p.f1Stride
 			}
 			for _, lim := range p.f1Lim {
-				if mine() {
-					tablegen.F1(cfg, lim[0], lim[1], stride, yield)
-				}
+				// F1 is large: partition it case by case so that no worker gets a whole configuration
+				n := 0
+				tablegen.F1(cfg, lim[0], lim[1], stride, func(c *tablegen.Case) {
+					n++
+					if n%wn == wi {
+						checkTable(prop, c, res)
+					}
+				})
 			}
 		}
 		if len(p.f2) > 0 {
